@@ -295,6 +295,12 @@ func (e sqlEnv) Fresh(p string, s smt.Sort) *smt.Term { return e.in.C.Fresh(p, s
 func (e sqlEnv) Concretize(t *smt.Term, what string) int64 {
 	return e.in.concretize(t, what).Int64()
 }
+func (e sqlEnv) IsUnsat(c *smt.Term) bool {
+	if c.IsFalse() {
+		return true
+	}
+	return e.in.path.sess.CheckPop(c) == smt.Unsat
+}
 func (e sqlEnv) MustBeUnsat(c *smt.Term, what string) {
 	if c.IsFalse() {
 		return
@@ -552,7 +558,7 @@ func (in *Interp) doQuery(st *dbState, db *sqlm.DB, text string, args *sqlm.Args
 }
 
 func (in *Interp) ordered(db *sqlm.DB, rel *sqlm.Rel, need int) []sqlm.RRow {
-	if rel.Unordered && need > 0 && len(rel.Rows) > 1 {
+	if rel.Unordered && need > 0 && len(rel.Rows) > 1 && db.OrderMatters(sqlEnv{in}, rel) {
 		// the caller only maps over the rows (order-insensitive use) when it passes need<0
 		panic(unsupported{"UNSUPPORTED order-dependent use of unordered result"})
 	}
